@@ -128,24 +128,23 @@ func (sa *SecureAead) Read(b []byte) (n int, err error) {
 	if err != nil {
 		return
 	}
-	n = int(binary.BigEndian.Uint16(frame))
-	sealed := make([]byte, n+sa.aead.Overhead())
+	size := int(binary.BigEndian.Uint16(frame))
+	sealed := make([]byte, size+sa.aead.Overhead())
 	_, err = io.ReadFull(sa.conn, sealed)
 	if err != nil {
 		return
 	}
 
-	_, err = sa.aead.Open(frame[:0], sa.nonce, sealed[:], nil)
+	plain, err := sa.aead.Open(frame[:0], sa.nonce, sealed[:], nil)
 	if err != nil {
-		return
+		return 0, err
 	}
 	sa.increaseNonce()
 
-	size := n
-	n = copy(b, frame[:size])
-	if n < size {
+	n = copy(b, plain)
+	if n < len(plain) {
 		// keep what does not fit for the following reads
-		sa.pending = frame[n:size]
+		sa.pending = plain[n:]
 	}
 	return
 }
